@@ -65,8 +65,8 @@ type l1leaf struct {
 	mer, rer common.Hash
 	parent   common.Hash
 	ts       uint64
-	nMain    int // mainnet deposits covered by mer
-	nOther   int // deposits of the other rollup covered by rer (through its verified LER)
+	nMain    int                       // mainnet deposits covered by mer
+	nOther   int                       // deposits of the other rollup covered by rer (through its verified LER)
 	uproof   [names.Height]common.Hash // proof of the other rollup's LER in the rollup exit tree of rer
 }
 
@@ -86,25 +86,25 @@ type world struct {
 	seed int64
 	dict *names.Dict
 
-	l1exit  *names.AppendTree // mainnet exit tree
-	otherLT *names.AppendTree // other rollup's local exit tree
-	rollupT *names.UpdTree    // rollup exit tree
-	infoT   *names.AppendTree // L1 info tree
-	leaves  []*l1leaf
-	l1hdr   map[uint64]*ethtypes.Header
-	l1tip   uint64
-	l1shape []int
-	l1steps string
-	l1claims [][]int
+	l1exit    *names.AppendTree // mainnet exit tree
+	otherLT   *names.AppendTree // other rollup's local exit tree
+	rollupT   *names.UpdTree    // rollup exit tree
+	infoT     *names.AppendTree // L1 info tree
+	leaves    []*l1leaf
+	l1hdr     map[uint64]*ethtypes.Header
+	l1tip     uint64
+	l1shape   []int
+	l1steps   string
+	l1claims  [][]int
 	finalized uint64
 
 	pool     []*claimSpec
 	nextPool int
 
-	l2exit  *names.AppendTree // this L2's exit tree (the certificate's LER chain)
-	l2deps  map[int]*dep
-	nextL2  int
-	l2last  uint64
+	l2exit   *names.AppendTree // this L2's exit tree (the certificate's LER chain)
+	l2deps   map[int]*dep
+	nextL2   int
+	l2last   uint64
 	l2blocks []l2blk // per L2 block: how many deposits / pool claims it used (for reorgs)
 
 	l1store *l1infotreesync.L1InfoTreeSync
